@@ -269,6 +269,12 @@ class Repo:
                     m.repo = self
                     self.by_modname[m.modname] = m
         self._resolve_bases()
+        for m in self.modules.values():          # nested functions belong to the module (and class) of the function they are written in
+            for n0 in ast.walk(m.tree):
+                if isinstance(n0, ast.FunctionDef) and getattr(n0, "_module", None) is None:
+                    n0._module = m
+                    if not hasattr(n0, "_cls"):
+                        n0._cls = None
         # summaries by inlining: private helpers are folded into their callers before any rule looks at a function
         from .inline import inline_private_helpers
         self.inlined = inline_private_helpers(self)
